@@ -21,6 +21,94 @@ def contains_node(tree, target):
     return any(n is target for n in walk(tree))
 
 
+def _handler_flag(p, hh, first_name):
+    """(names the allowlist verdict goes by inside the request handler, the struct field it arrives in or None): the
+    handler's first parameter is either the bool itself or a private struct with exactly one bool field (read as
+    `self.f` or bound by destructuring `let Self { f, .. } = self`)."""
+    ty1 = strip_generics(hh.body.local_ty(1)) if hh.body.argc >= 1 else ""
+    if ty1 in ("bool", ""):
+        return {first_name}, None
+    adt = p.adts.get(ty1)
+    bools = [f["name"] for v in (adt or {}).get("variants", []) for f in v.get("fields", []) if f.get("ty") == "bool"]
+    if len(bools) != 1:
+        return {first_name}, None
+    names = set()
+    holders = {first_name}
+    for n in walk(hh.hir):
+        if n.get("k") == "Let" and isinstance(n.get("init"), dict):
+            init = peel(n["init"])
+            pat = n.get("pat") or {}
+            if init.get("k") == "Path" and init.get("name") in holders:
+                if pat.get("k") == "Bind":
+                    holders.add(pat.get("name"))  # `let self = self` of the async desugaring
+                elif pat.get("k") == "Struct":
+                    for fp in pat.get("fields") or []:
+                        if fp.get("f") == bools[0] and (fp.get("pat") or {}).get("k") == "Bind":
+                            names.add(fp["pat"]["name"])
+    return names, bools[0]
+
+
+def _flag_of(p, s):
+    """The allowlist verdict inside the value handed to the handler: the bool itself, or the bool field of the private
+    per-connection struct (through clone() of a captured copy)."""
+    captured = "capture" in repr(s)
+    s = strip_sym(s)
+    for _ in range(6):
+        if isinstance(s, tuple) and s and s[0] == "call" and sym_is_call(s, "Clone::clone") and s[2]:
+            s = strip_sym(s[2][0])
+        elif isinstance(s, tuple) and s and s[0] in ("ref", "deref"):
+            s = strip_sym(s[1])
+        elif isinstance(s, tuple) and s and s[0] == "capture":
+            inner = strip_sym(s[2]) if len(s) > 2 and isinstance(s[2], tuple) else None
+            if inner is not None and inner[0] == "agg" and inner[1] not in ("tuple", "closure"):
+                s = inner
+            else:
+                break
+        else:
+            break
+    if isinstance(s, tuple) and s and s[0] == "agg" and s[1] not in ("tuple", "closure") and len(s) > 4:
+        adt = p.adts.get(strip_generics(s[5] or s[1] or ""))
+        bools = [f["name"] for v in (adt or {}).get("variants", []) for f in v.get("fields", []) if f.get("ty") == "bool"]
+        if len(bools) == 1 and bools[0] in (s[4] or ()):
+            v = s[3][list(s[4]).index(bools[0])]
+            return ("capture", -1, v) if captured and "capture" not in repr(v) else v
+        return None
+    return ("capture", -1, s) if captured and "capture" not in repr(s) else s
+
+
+def _allowlist_field(p):
+    """(field of HttpListeningExporter that holds the allowlist, label of its "no list configured" state): followed from
+    the Option<Vec<IpNet>> parameter of new_http_listener into the struct it builds — stored as it is ("None"), or through
+    a conversion into a private enum (the variant the conversion yields for None)."""
+    from facts import SpecialisedFn
+
+    nl = p.fn("metrics_exporter_prometheus::exporter::http_listener::new_http_listener")
+    if nl is None:
+        return "allowed_addresses", "None"
+    b = nl.body
+    sy = Sym(nl)
+    pidx = next((l - 1 for l in range(1, b.argc + 1) if "Option<" in b.local_ty(l) and "IpNet" in b.local_ty(l)), None)
+    if pidx is None:
+        return "allowed_addresses", "None"
+    for i, k, st in b.stmts():
+        if st["k"] == "assign" and st["rv"]["k"] == "agg" and (st["rv"].get("adt") or "").endswith("HttpListeningExporter"):
+            for fld, op in zip(st["rv"].get("fields") or [], st["rv"].get("ops") or []):
+                v = strip_sym(sy.operand(op))
+                if is_param(v, pidx):
+                    return fld, "None"
+                if v[0] == "call" and any(is_param(strip_sym(a), pidx) for a in v[2]):
+                    conv = next((g for g in p.fns if g.path == v[1] or g.path == strip_generics(v[1])), None) or next((g for g in p.fns if g.name == v[1].split("::")[-1] and g.j.get("impl_trait") and "PeerFilter" in g.path), None)
+                    if conv is None:
+                        cands = [g for g in p.fns if g.name == strip_generics(v[1]).split("::")[-1] and g.body.argc == len(v[2]) and "Option<" in g.body.local_ty(1) and "IpNet" in g.body.local_ty(1)]
+                        conv = cands[0] if len(cands) == 1 else None
+                    if conv is not None:
+                        pos = next(j for j, a in enumerate(v[2]) if is_param(strip_sym(a), pidx)) + 1
+                        r = strip_sym(Sym(SpecialisedFn(conv, pos, "None")).local(0))
+                        if r[0] == "agg" and r[2]:
+                            return fld, r[2]
+    return "allowed_addresses", "None"
+
+
 def run(ctx):
     chk = ctx.check
     p = ctx.crate("metrics_exporter_prometheus")
@@ -45,13 +133,17 @@ def run(ctx):
 
         # the allowlist verdict is the handler's first parameter (a bool), whatever it is called
         hp = hh.j.get("hir_params") or []
-        flag_name = hp[0].get("name") if hp and hp[0].get("k") == "Bind" else "is_allowed"
+        first_name = hp[0].get("name") if hp and hp[0].get("k") == "Bind" else "is_allowed"
+        flag_names, FLAG_FIELD = _handler_flag(p, hh, first_name)
 
         def is_flag(c, negated=False):
             c = peel(c)
             if negated:
                 return c.get("k") == "Unary" and c.get("op") == "Not" and is_flag(c.get("a"))
-            return c.get("k") == "Path" and c.get("res") == "local" and c.get("name") == flag_name
+            if c.get("k") == "Field" and FLAG_FIELD is not None:
+                base = peel(c.get("base") or c.get("a") or {})
+                return (c.get("field") or c.get("f") or c.get("name")) == FLAG_FIELD and base.get("k") == "Path" and base.get("name") == first_name
+            return c.get("k") == "Path" and c.get("res") == "local" and c.get("name") in flag_names
 
         def refusal_ok(node):
             ns = deep(node)
@@ -113,15 +205,17 @@ def run(ctx):
         hr = [c for c in nonforeign_calls(pts) if c.is_("HttpListeningExporter::handle_http_request")]
         ok = len(cta) == 1 and len(hr) == 1 and is_param(arg_syms(cta[0])[0], 0) and is_param(sym_through(arg_syms(cta[0])[1]), 1)
         if ok:
-            a0 = Sym(hr[0].fn).operand(hr[0].args[0])
-            ok = "capture" in repr(a0) and sym_is_call(strip_sym(a0), "HttpListeningExporter::check_tcp_allowed")
+            a0 = _flag_of(p, Sym(hr[0].fn).operand(hr[0].args[0]))
+            ok = a0 is not None and "capture" in repr(a0) and sym_is_call(strip_sym(a0), "HttpListeningExporter::check_tcp_allowed")
         chk.ob("C18.a", f"{pts.path} [flag provenance]", ok, "is_allowed = self.check_tcp_allowed(&stream), evaluated once per connection" if ok else "the flag handed to handle_http_request is not check_tcp_allowed(&stream) of this connection", pts.loc())
     pus = (p.method(HL, "process_uds_stream") or [None])[0]
     if pus:
         hr = [c for c in nonforeign_calls(pus) if c.is_("HttpListeningExporter::handle_http_request")]
-        ok = len(hr) == 1 and strip_sym(Sym(hr[0].fn).operand(hr[0].args[0]))[:3] == ("const", "bool", True)
+        ok = len(hr) == 1 and (_flag_of(p, Sym(hr[0].fn).operand(hr[0].args[0])) or ())[:3] == ("const", "bool", True)
         chk.ob("C18.a", f"{pus.path} [UDS is always allowed]", ok, "UDS connections pass the documented constant true" if ok else "UDS connections do not pass `true`", pus.loc(), nontrivial=False)
     cta = one_method(chk, "C18.a", p, HL, "check_tcp_allowed")
+    AF, NONE_LAB = _allowlist_field(p)
+    chk.analysed["allowlist field"] = f"{AF} (no list = {NONE_LAB})"
     if cta:
         b = cta.body
         sy = Sym(cta)
@@ -129,7 +223,7 @@ def run(ctx):
         for i, k, s in b.stmts():
             if s["k"] == "assign" and s["p"]["l"] == 0 and not s["p"].get("pr"):
                 rets.append((i, strip_sym(sy.rvalue(s["rv"], 0, frozenset()))))
-        none_true = any(v[:3] == ("const", "bool", True) and any(lab == "None" and "allowed_addresses" in repr(dd) for dd, lab in gates(b, i)) for i, v in rets)
+        none_true = any(v[:3] == ("const", "bool", True) and any(lab == NONE_LAB and f"'{AF}'" in repr(dd) for dd, lab in gates(b, i)) for i, v in rets)
         mo = [c for c in nonforeign_calls(cta) if c.fn is cta and c.is_("Result<T, E>::map_or_else", "Result<T, E>::map_or", "Result<T, E>::is_ok_and")]
         err_false = False
         any_ok = False
@@ -167,14 +261,14 @@ def run(ctx):
             if len(cont) == 1:
                 ca = [Sym(cont[0].fn).operand(x) for x in cont[0].args]
                 ip_ok = "ip(" in sym_str(ca[1]) and "peer_addr" in sym_str(ca[1])
-                nets_ok = "allowed_addresses" in sym_str(ca[0]) or "next(" in sym_str(ca[0])
+                nets_ok = AF in sym_str(ca[0]) or "next(" in sym_str(ca[0])
                 pc = PredFlow(cont[0].fn, lambda subj, v: None, lambda x: ("P", "N") if sym_is_call(x, "contains") and "ipnet" in str(strip_sym(x)[1]) else None)
                 if cont[0].fn is cta:
                     # every value returned (other than "no allowlist -> true") is true only if a contains() said so
                     vals = []
                     for i, k, st in b.stmts():
                         if st["k"] == "assign" and st["p"]["l"] == 0 and not st["p"].get("pr") and pc.at(i) != "B":
-                            if any(lab == "None" and "allowed_addresses" in repr(dd) for dd, lab in gates(b, i)):
+                            if any(lab == NONE_LAB and f"'{AF}'" in repr(dd) for dd, lab in gates(b, i)):
                                 continue
                             vals.append(pc._bool_rv(st["rv"], dict(pc._env_at(i, k)), pc.at(i)))
                     any_ok = ip_ok and nets_ok and bool(vals) and all(v[0] in ("P", "B") for v in vals) and any(v[0] == "P" for v in vals) and any(v[1] != "B" for v in vals)
